@@ -985,6 +985,12 @@ func replayCase(sub string, raw json.RawMessage) string {
 			return m
 		}
 		return checkMal(c)
+	case "yaml-trunc":
+		var c yamlCase
+		if m := un(&c); m != "" {
+			return m
+		}
+		return checkYAML(c, false, false) // replays ignore the exclusions
 	}
 	return "unknown sub " + sub
 }
@@ -1391,6 +1397,34 @@ func TestC16(t *testing.T) {
 		rec.Sample(c)
 		if msg := checkMal(c); msg != "" {
 			t.Fatalf("%s", rec.Fail("malformed", c, "%s", msg))
+		}
+	})
+
+	lenientLookahead, lenientUTF8 := rec.KnownClass(classYAMLLookahead), rec.KnownClass(classYAMLUTF8)
+	rec.Rapid(t, "yaml-trunc", rec.Scale(1500, 30000), func(t *rapid.T) {
+		c := genYAMLCase(t)
+		rec.Eval()
+		rec.Class("yaml/" + c.Variant)
+		tk := c.Tail.Kind
+		if tk == "scanner" {
+			tk = fmt.Sprintf("scanner@%d", c.Tail.At)
+		}
+		rec.Class("yaml/tail-" + tk)
+		if c.inLookaheadClass() {
+			rec.Class("yaml/in-lookahead-class")
+			if lenientLookahead {
+				rec.Excluded(classYAMLLookahead)
+			}
+		}
+		if c.inUTF8Class() && lenientUTF8 {
+			rec.Excluded(classYAMLUTF8)
+		}
+		if c.Tail.Kind != "none" && len(c.Docs) >= 2 {
+			rec.NT("yaml/" + key(c))
+		}
+		rec.Sample(c)
+		if msg := checkYAML(c, lenientLookahead, lenientUTF8); msg != "" {
+			t.Fatalf("%s", rec.Fail("yaml-trunc", c, "%s", msg))
 		}
 	})
 }
